@@ -158,6 +158,20 @@ package SolarUtil
 //@   use jdnMono(y, m, d, 9999, 12, 31)
 //@   use jdnMono(9999, 12, 31, y, m, d)
 
+//@ # a day at or after the first of month (y, m) lies beyond that month exactly from the first of the next month on
+//@ lemma monthOfDay(y int, m int, j int) [C15]
+//@   requires 0 <= y && y <= 9998 && 1 <= m && m <= 12 && jdn(y, m, 1) <= j && j <= jdn(y, m, 1)+60
+//@   ensures (yOf(j) > y || mOf(j) > m) == (j >= jdn(y, m, 1)+dim(y, m))
+//@   ensures yOf(j) >= y
+//@   use yearOfDate(y, m, 1)
+//@   use yearOfDate(ite(m == 12, y+1, y), ite(m == 12, 1, m+1), 1)
+//@   use monthStep(y, m)
+//@   use ymdOf(j)
+//@   use jdnMono(yOf(j), mOf(j), dOf(j), ite(m == 12, y+1, y), ite(m == 12, 1, m+1), 1)
+//@   use jdnMono(ite(m == 12, y+1, y), ite(m == 12, 1, m+1), 1, yOf(j), mOf(j), dOf(j))
+//@   use jdnMono(yOf(j), mOf(j), dOf(j), y, m, 1)
+//@   use jdnMono(y, m, 1, yOf(j), mOf(j), dOf(j))
+
 //@ # Meeus' formula, integer part: the library's float expression computes the same day number as jdn.
 //@ # 365.25 = 1461/4 exactly; floor(30.6001*k) == floor(306001*k/10000) for the double nearest 30.6001, k in 4..15
 //@ # (checked where it is used: the case split on month folds the product to a constant).
